@@ -55,7 +55,13 @@ def run_one(pid: str, tier: str) -> int:
     signal.setitimer(signal.ITIMER_PROF, budget)
     signal.alarm(10 * budget)
     try:
-        code = core.run_check(pid, tier, mod.run, level=LEVELS.get(pid, "other"))
+        def _run(rep):
+            mod.run(rep)
+            from rules import delegation
+
+            delegation.apply(rep, pid)
+
+        code = core.run_check(pid, tier, _run, level=LEVELS.get(pid, "other"))
     finally:
         signal.setitimer(signal.ITIMER_PROF, 0)
         signal.alarm(0)
